@@ -1,0 +1,7 @@
+//go:build verif
+
+package internal
+
+// BlockBufferSize is the size at which a data block of a saved cache is flushed.
+// A variable in the verif build, so that a harness can make small caches span several blocks.
+var BlockBufferSize = 4 * 1024 * 1024
